@@ -212,6 +212,21 @@ Theorem C17_replace_text_local :
     bytes_of g = pre ++ t_text t ++ post /\ bytes_of g' = pre ++ new ++ post.
 Proof. exact replace_text_local. Qed.
 
+(* `clone_with_leading_trivia`: a replacement that differs from the original token only in its leading
+   trivia (the formatter-style edit) changes exactly the trivia bytes, through both interfaces. *)
+Theorem C17_replace_trivia_local :
+  forall k cs l i t tr, let g := GNode k cs l in
+    nth_error (leaves g) i = Some t ->
+    let t' := clone_with_leading_trivia t tr in
+    let g1 := token_rewrite nat_hook (replace_nth_t i t') nat_hook 0%nat g in
+    let g2 := rewrite (replace_nth_e i t') 0%nat g in
+    let pre := concat (map token_bytes (firstn i (leaves g))) in
+    let post := t_text t ++ concat (map token_bytes (skipn (S i) (leaves g))) in
+    bytes_of g = pre ++ trivia_bytes (t_trivia t) ++ post /\
+    bytes_of g1 = pre ++ trivia_bytes tr ++ post /\ bytes_of g2 = pre ++ trivia_bytes tr ++ post /\
+    len_ok g1 = true /\ len_ok g2 = true.
+Proof. exact replace_trivia_local. Qed.
+
 (* ---------------------------------------------------------------------------------------------- *)
 (* Non-vacuity: concrete inputs that exercise the hypotheses                                      *)
 (* ---------------------------------------------------------------------------------------------- *)
@@ -316,6 +331,7 @@ Print Assumptions C17_token_rewrite_keep_id_old_refuted.
 Print Assumptions C17_replace_one_token_local.
 Print Assumptions C17_replace_one_token_local_rewriter.
 Print Assumptions C17_replace_text_local.
+Print Assumptions C17_replace_trivia_local.
 Print Assumptions C17_ex_lex.
 Print Assumptions C17_ex_build.
 Print Assumptions C17_ex_parse.
